@@ -138,7 +138,7 @@ PROPS["C17"] = dict(
 
 # properties whose check is integrated, silent on the unchanged tree modulo listed known
 # findings, and has been shown to see at least one seeded break: only these are claimed
-READY = ["C03", "C04", "C05", "C06", "C07", "C08", "C09", "C10", "C11", "C12", "C13", "C14", "C15", "C16", "C17", "C18", "C19", "C20"]
+READY = ["C01", "C02", "C03", "C04", "C05", "C06", "C07", "C08", "C09", "C10", "C11", "C12", "C13", "C14", "C15", "C16", "C17", "C18", "C19", "C20"]
 
 # workloads implemented entirely in vcore (no format crates): run through the vcore-run binary
 for _p in ("SELF", "C09", "C10", "C11", "C12", "C13", "C19", "C20"):
@@ -232,4 +232,27 @@ PROPS["C08"] = dict(
     level_text="Hostile-input runtime monitoring of all safe readers in supervised worker processes (aborts and hangs attributed to the exact mutation and reader), with a counting allocator for the memory clause and a CPU-time watchdog for the bounded restatement of termination.",
     level_note="'Memory unrelated to input size' is restated as an absolute cap (1 GiB peak / 8 GiB single request for inputs <= 1 MiB); 'does not loop forever' as 3 reproductions at 10x the CPU budget. Which error is returned and the unsafe skip-validation paths are not asserted.",
     technique="structure-aware mutation of valid inputs under panic, allocation and CPU-time monitors with independent validation of every Ok result",
+)
+
+PROPS["C01"] = dict(
+    quick=[st("quick", 90)],
+    thorough=[st("thorough", 900), st("quick", 600, variant="fv")],
+    floor=dict(quick=300, thorough=1000),
+    rule="pipelines of 1-4 type-compatible operations drawn from a registry of 101 safe operations (builders finish/finish_cloned, FromIterator, typed try_new, slice, new_null/new_empty, ArrayData round trips, MutableArrayData; filter/take/concat/interleave/zip/merge/nullif/shift/gc-dictionary/union_extract/coalescer and record-batch forms; cast over can_cast_types; row convert; sort/lexsort/rank/partition; comparison, arithmetic, aggregate, boolean, bitwise, temporal, arity and string kernels) applied to random columns in random physical layouts, and IPC / Parquet / CSV / JSON readers on the harness' own valid files followed by kernels; every returned array, ArrayData and RecordBatch is checked by the independent validator, validate_full, the accessor exercise and ArrayFormatter; the thorough tier repeats the workload in a build with the force_validate feature where any panic from a re-validating unchecked constructor is a violation; class = (op, input family -> output family, section, outcome)",
+    level="exploration",
+    level_text="Runtime validation of every array any safe API returns along generated kernel/reader pipelines, with an independent format validator as oracle and a second build (force_validate) turning internal unchecked constructions into checks.",
+    level_note="Values are not asserted (C02/C03 do that); Err results and panics of the operations themselves are not verdicts here; nulls of non-nullable fields in slots not reachable through valid ancestors are not asserted.",
+    technique="runtime invariant checking (independent Arrow-format validator) over generated pipelines; force_validate instrumented build",
+)
+
+PROPS["C02"] = dict(
+    quick=[st("quick", 90)],
+    thorough=[st("thorough", 900)],
+    floor=dict(quick=300, thorough=1000),
+    core=True,
+    rule="per logical column 7-11 physical realisations (canonical, clean slice, unsliced chaos, garbage under nulls, unaligned, random; builder, FromIterator and builder reuse): section rt (accessors, iterators and ArrayFormatter text equal the model for every realisation), eq (`==` holds between realisations with equal null placement and fails after one value/null flip or row insertion), cong (for every registry kernel: is_ok and logical output agree across all realisations, auxiliary operands realised in the same layout class), comm (row-wise kernels commute with slice / take / concat); a cong violation is classified by cause: offset vs hidden values (unreferenced dictionary entries, non-empty extents under nulls); class = (section, op, type family, layout class, outcome)",
+    level="exploration",
+    level_text="Metamorphic runtime check: the same logical column in many physical layouts must give equal accessor views, equal `==` verdicts and congruent kernel outcomes, and row-wise kernels must commute with selection.",
+    level_note="`==` between a null dictionary key and a null dictionary value, indices of unstable sorts under ties, error messages, output encoding and NaN payloads of computed results are not asserted. Signatures are normalised to (section, op, type family, cause class).",
+    technique="metamorphic testing across physical realisations of one logical value (layout invariance, commutation with selection)",
 )
